@@ -49,6 +49,7 @@ limitations under the License.
 
 #ifdef PHOTON_VERIF
 extern "C" { photon_verif_hook_t photon_verif_hook = nullptr; }
+extern "C" { photon_verif_lock_t photon_verif_lock = nullptr; }
 #endif
 
 /* notes on the scheduler:
@@ -235,6 +236,7 @@ namespace photon
         // by their own vCPU, so they can not be stolen
         bool stealable() { return allow_work_stealing() && idx == -1; }
         int set_error_number() {
+            VT_EVT(VT_WAKE, this, (int64_t)error_number, 0, 0);
             if (likely(error_number)) {
                 errno = error_number;
                 error_number = 0;
@@ -395,6 +397,7 @@ namespace photon
             q.push_back(obj);
             obj->idx = q.size() - 1;
             up(obj->idx);
+            VT_EVT(VT_HEAP_OP, this, 0, obj, q.size());
             return 0;
         }
 
@@ -404,6 +407,7 @@ namespace photon
             if (q.size() == 1) {
                 q.pop_back();
                 ret->idx = -1;
+                VT_EVT(VT_HEAP_OP, this, 1, ret, q.size());
                 return ret;
             }
             q[0] = q.back();
@@ -411,6 +415,7 @@ namespace photon
             q.pop_back();
             down(0);
             ret->idx = -1;
+            VT_EVT(VT_HEAP_OP, this, 1, ret, q.size());
             return ret;
         }
 
@@ -421,6 +426,7 @@ namespace photon
             if ((size_t)id == q.size() - 1){
                 q.pop_back();
                 obj->idx = -1;
+                VT_EVT(VT_HEAP_OP, this, 2, obj, q.size());
                 return 0;
             }
 
@@ -428,6 +434,7 @@ namespace photon
                 assert(id == 0);
                 q.pop_back();
                 obj->idx = -1;
+                VT_EVT(VT_HEAP_OP, this, 2, obj, q.size());
                 return 0;
             }
             q[id] = q.back();
@@ -435,6 +442,7 @@ namespace photon
             q.pop_back();
             if (!up(id)) down(id);
             obj->idx = -1;
+            VT_EVT(VT_HEAP_OP, this, 2, obj, q.size());
             return 0;
         }
 
@@ -1278,6 +1286,7 @@ R"(
                 assert(th->state == states::STANDBY);
                 th->state = states::READY;
                 sleepq.pop(th);
+                VT_EVT(VT_DRAIN, th, 0, 0, 0);
                 count++;
             }
         }
@@ -1293,6 +1302,7 @@ R"(
             sleepq.pop_front();
             if (likely(th->state == states::SLEEPING)) {
                 th->dequeue_ready_atomic();
+                VT_EVT(VT_EXPIRE, th, now, th->ts_wakeup, 0);
                 list.push_back(th);
                 count++;
             } else assert(({ // th got interrupted just after standbyq.eject_whole_atomic()
@@ -1312,6 +1322,20 @@ insert_list:
         return resume_threads_inlined(vcpu, runq);
     }
 
+#ifdef PHOTON_VERIF
+    // verification accessor: copies (thread, wake-up time, back index) of the
+    // heap slots of a SleepQueue; returns the number of slots
+    extern "C" int photon_verif_sleepq_dump(const void* sq, const void** th,
+                                            uint64_t* ts, int* idx, int max) {
+        auto& q = ((const SleepQueue*)sq)->q;
+        int n = 0;
+        for (auto t : q) {
+            if (n >= max) break;
+            th[n] = t; ts[n] = t->ts_wakeup; idx[n] = t->idx; n++;
+        }
+        return (int)q.size();
+    }
+#endif
     states thread_stat(thread* th)
     {
         return (states) th->state;
@@ -1323,6 +1347,7 @@ insert_list:
         if_update_now();
         rq.current->error_number = 0;
         auto sw = AtomicRunQ(rq).goto_next();
+        VT_EVT(VT_PRESWITCH, sw.from, sw.to, 0, 0);
         switch_context(sw.from, sw.to);
         return rq.current->error_number;
     }
@@ -1375,6 +1400,7 @@ insert_list:
         if_update_now(true);
         sw.from->ts_wakeup = timeout.expiration();
         sw.from->get_vcpu()->sleepq.push(sw.from);
+        VT_EVT(VT_SLEEP, sw.from, waitq, sw.from->ts_wakeup, now);
         return sw;
     }
     inline int yield_as_sleep() {
@@ -1477,6 +1503,7 @@ insert_list:
             vcpu->sleepq.pop(th);
             AtomicRunQ(rq).insert_tail(th);
         }
+        VT_EVT(VT_INTR, th, (int64_t)error_number, th->state == states::STANDBY, 0);
     }
     void thread_interrupt(thread* th, int error_number)
     {
@@ -1487,6 +1514,7 @@ insert_list:
         out: // may have thread_yield()-ed
             if (state == states::READY && th->error_number == 0)
                 th->error_number = error_number;
+            VT_EVT(VT_INTR_READY, th, (int64_t)error_number, state, 0);
             return;
         }
         SCOPED_LOCK(th->lock);
@@ -1798,15 +1826,21 @@ insert_list:
     int mutex::try_lock()
     {
         thread* ptr = nullptr;
+        VT_ATOMIC_BEGIN();
         bool ret = owner.compare_exchange_strong(ptr, CURRENT,
             std::memory_order_acq_rel, std::memory_order_relaxed);
+        VT_EVT(VT_MTX_TRY, this, CURRENT, ret, 0);
+        VT_ATOMIC_END();
         return (int)ret - 1;
     }
     inline void do_mutex_unlock(mutex* m)
     {
         SCOPED_LOCK(m->splock);
         ScopedLockHead h(m);
+        VT_ATOMIC_BEGIN();
         m->owner.store(unlikely(m->_contending) ? nullptr : (thread*)h);
+        VT_EVT(VT_MTX_UNLOCK, m, (thread*)h, CURRENT, m->splock.locked() | (m->_contending ? 2 : 0));
+        VT_ATOMIC_END();
         if (h)
             prelocked_thread_interrupt(h, -1);
     }
@@ -1898,6 +1932,7 @@ insert_list:
         counter = count;
         DEFER(counter = 0);
         while (!try_subtract(count)) {
+            VT_EVT(VT_SEM_SUB, this, count, 0, m_count.load());
             int ret = waitq::wait_defer(timeout, spinlock_unlock, &splock);
             splock.lock();  // assuming errno NOT changed
             if (unlikely(ret < 0)) {    // got interrupted
@@ -1910,6 +1945,7 @@ insert_list:
                 return ret;
             }
         }
+        VT_EVT(VT_SEM_SUB, this, count, 1, m_count.load());
         return 0;
     }
     void semaphore::try_resume(uint64_t cnt) {
@@ -1922,6 +1958,7 @@ insert_list:
             if (c > cnt) break;
             cnt -= c;
             prelocked_thread_interrupt(th, -1);
+            VT_EVT(VT_SEM_RESUME, this, th, cnt, 0);
         }
         if (!q.th || !cnt || !m_ooo_resume)
             return;
@@ -1946,6 +1983,7 @@ insert_list:
             if (!found) break;
             cnt -= found->semaphore_count;
             prelocked_thread_interrupt(found, -1);
+            VT_EVT(VT_SEM_RESUME, this, found, cnt, 1);
             found->lock.unlock();
         }
     }
@@ -1986,6 +2024,7 @@ insert_list:
         asm ("ror %0, %0, #63" : "+r"(op) : "r"(op));
 #endif
         state += op;
+        VT_EVT(VT_RW_STATE, this, state, mode, CURRENT);
         return 0;
     }
     int rwlock::unlock()
@@ -1996,6 +2035,7 @@ insert_list:
             state --;
         else
             state ++;
+        VT_EVT(VT_RW_STATE, this, state, 0, CURRENT);
         if (state == 0 && cvar.q.th) {
             // wake the head of the queue, whoever it is at this moment, and
             // if it is a reader also the run of readers behind it. (Peeking
@@ -2004,6 +2044,7 @@ insert_list:
             // or interrupt on another vCPU -- and a writer became the head:
             // nobody was woken and every waiter slept on a free lock.)
             auto th = cvar.notify_one();
+            VT_EVT(VT_RW_WOKE_FIRST, this, th, 0, 0);
             if (th && (th->rwlock_mark & RLOCK))
                 while (cvar.q.th && (cvar.q.th->rwlock_mark & RLOCK)) {
                     cvar.notify_one();
